@@ -459,6 +459,20 @@ def generate(run_seed, tier):
             elif r < 0.85:
                 ops.append(['store', o.choice(groups), 'D%dx' % len(ops),
                             gen_tree(o)])
+            elif r < 0.89:
+                # the writer methods called directly (as component write()
+                # methods do), with and without metadata
+                lf = gen_leaf(o, 3)
+                while lf['t'] not in ('float', 'int', 'npfloat', 'npint', 'str',
+                                      'array', 'list', 'strlist'):
+                    lf = gen_leaf(o, 3)
+                meta = None
+                if o.random() < 0.5:
+                    meta = {'units': o.choice(['m', 'Pa', 'K']),
+                            'scale': o.uniform(0.1, 10),
+                            'n': o.randint(0, 9)}
+                ops.append(['write_direct', o.choice(groups),
+                            'W%dx' % len(ops), lf, meta])
             elif r < 0.93:
                 # two results in a row that each hold a large array of the
                 # same shape (native spectra of consecutive runs)
@@ -530,6 +544,12 @@ def plan_ops(ops):
             if parent in groups and full not in all_groups:
                 all_groups.add(full)
                 stored.add(full)
+                out.append(op)
+        elif k == 'write_direct':
+            parent = tuple(op[1])
+            full = parent + (op[2],)
+            if parent in groups and full not in all_groups:
+                all_groups.add(full)
                 out.append(op)
         elif k == 'restore':
             parent = tuple(op[1])
@@ -751,6 +771,28 @@ def execute(case, keep_text=False):
                 if p is None:
                     continue
                 p.store_dictionary(materialise(op[3]), group_name=op[2])
+            elif k == 'write_direct':
+                parent = tuple(op[1])
+                p = o if not parent else groups.get(parent)
+                if p is None:
+                    continue
+                if not parent:
+                    # the file object itself has no write_* methods: a group
+                    # of its own
+                    p = o.create_group('direct_' + op[2])
+                lf, meta = op[3], op[4]
+                v = mat_leaf(lf)
+                t_ = lf['t']
+                if t_ == 'array':
+                    p.write_array(op[2], v, metadata=meta)
+                elif t_ == 'list':
+                    p.write_list(op[2], v, metadata=meta)
+                elif t_ == 'str':
+                    p.write_string(op[2], v, metadata=meta)
+                elif t_ == 'strlist':
+                    p.write_string_array(op[2], v, metadata=meta)
+                else:
+                    p.write_scalar(op[2], v, metadata=meta)
             elif k == 'restore':
                 parent = tuple(op[1])
                 p = o if not parent else groups.get(parent)
@@ -896,6 +938,29 @@ def execute(case, keep_text=False):
                         viol('missing', 'group', '/'.join(op[1] + [op[2]]))
                         continue
                     groups[tuple(op[1]) + (op[2],)] = node
+                elif op[0] == 'write_direct':
+                    par = groups.get(tuple(op[1]))
+                    if par is None:
+                        continue
+                    if not op[1]:
+                        par = par.get('direct_' + op[2])
+                        if par is None:
+                            viol('missing', 'group', 'direct_' + op[2])
+                            continue
+                    node = par.get(op[2])
+                    lf = op[3]
+                    if lf['t'] == 'list' and node is None and False:
+                        pass
+                    compare_leaf(viol, list(op[1]) + [op[2]], lf, node, None)
+                    if op[4] and node is not None:
+                        out.bump('probes', 'metadata_written')
+                        for mk, mv in op[4].items():
+                            if mk not in node.attrs or \
+                                    _decode(node.attrs[mk]) != mv:
+                                viol('value-changed', 'metadata',
+                                     '%s: attribute %s stored as %r, read '
+                                     'back %r' % (op[2], mk, mv,
+                                                  node.attrs.get(mk)))
                 elif op[0] == 'store':
                     par = groups.get(tuple(op[1]))
                     if par is None:
